@@ -128,7 +128,7 @@ def run(pid, tier, seed, replay_path=None):
             raise Unsupported(f"translator validation failed ({len(mism)} mismatches), e.g. {mism[0]}")
 
         if pid == "C05":
-            cfgs = [(2, 10), (3, 8)] if tier == "quick" else [(2, 16), (3, 12)]
+            cfgs = [(2, 10), (3, 8)] if tier == "quick" else [(2, 14), (3, 10)]
             for T, K in cfgs:
                 for spurious in ([False] if tier == "quick" else [False, True]):
                     proto = Protocol(bm, T, spurious=spurious)
@@ -331,7 +331,7 @@ EXPLAIN = {
 }
 BOUNDS = {
     "C05": {"quick": {"threads": "2 (K=10), 3 (K=8)", "jobs_per_queue": "<=6", "generated_per_block": "<=2", "market_batches": "<=4", "invariant": "inductive: any schedule length, T=2 and T=3"},
-            "thorough": {"threads": "2 (K=16), 3 (K=12)", "jobs_per_queue": "<=6", "generated_per_block": "<=2", "market_batches": "<=4", "variants": "with and without spurious wake-ups", "invariant": "inductive, T=2 and T=3"}},
+            "thorough": {"threads": "2 (K=14), 3 (K=10)", "jobs_per_queue": "<=6", "generated_per_block": "<=2", "market_batches": "<=4", "variants": "with and without spurious wake-ups", "invariant": "inductive, T=2 and T=3"}},
     "C12": {"quick": {"paths": "all paths of one loop iteration of the timeout thread, arbitrary market state and clock"}, "thorough": {"paths": "same (the check is not bounded in schedule length)"}},
 }
 OUTSIDE = {
